@@ -1134,6 +1134,8 @@ pub struct Inner {
     start: tokio::time::Instant,
     pub trace: Vec<Event>,
     pub trace_enabled: bool,
+    /// recording stopped because the run produced too many events
+    pub trace_overflow: bool,
     pub counters: BTreeMap<&'static str, u64>,
     next_id: u32,
     next_port: u16,
@@ -1202,6 +1204,12 @@ pub fn trace(kind: Ev, obj: u32, a: u64, b: u64) {
                     a,
                     b,
                 });
+                // a run that produces millions of events is not going to tell anything new and
+                // would take gigabytes: stop recording, the run is reported as inconclusive
+                if i.trace.len() >= 6_000_000 {
+                    i.trace_enabled = false;
+                    i.trace_overflow = true;
+                }
                 // development aid: dump the tail of a run that will not end
                 if i.trace.len() == 400_000 {
                     if let Ok(p) = std::env::var("VERIF_DUMP_STORM") {
@@ -1294,6 +1302,7 @@ pub fn install(seed: u64) {
         start: tokio::time::Instant::now(),
         trace: Vec::new(),
         trace_enabled: true,
+        trace_overflow: false,
         counters: BTreeMap::new(),
         next_id: 1,
         next_port: 40000,
